@@ -176,6 +176,7 @@ def gen(r, tier, i):
         return gen_shared(r)
     case = topo.gen_case(r, maxports=4 if tier == 'quick' else 5)
     case['run_twice'] = r.random() < 0.3
+    case['entry'] = r.choice(['parts', 'parts', 'parts', 'store', 'store_init'])
     case['share_schema'] = r.random() < 0.5
     return case
 
@@ -264,8 +265,18 @@ def run(spec):
         node[mpath[-1]] = mtop
     stats = {}
     try:
-        e = Engine(processes=procs, steps=steps or None, topology=tops, initial_state=copy.deepcopy(init), display_info=False,
-                   emitter='null')
+        entry = spec.get('entry', 'parts')
+        if entry == 'parts':
+            e = Engine(processes=procs, steps=steps or None, topology=tops, initial_state=copy.deepcopy(init), display_info=False,
+                       emitter='null')
+        else:
+            from vivarium.core.composer import Composite
+            c = Composite({'processes': procs, 'steps': steps, 'topology': tops})
+            if entry == 'store':
+                e = Engine(store=c.generate_store({'initial_state': copy.deepcopy(init)}), display_info=False, emitter='null')
+            else:
+                # the store first, the initial state (which names the glob children) with the engine
+                e = Engine(store=c.generate_store({}), initial_state=copy.deepcopy(init), display_info=False, emitter='null')
     except Exception as ex:
         import traceback
         V.check('constructs', False, ('constructor raised for a well-formed topology', type(ex).__name__, str(ex)[:200],
